@@ -70,6 +70,10 @@ type FloodConfig struct {
 	// LocalDisplayName is the display name to include in route advertisements
 	LocalDisplayName string
 
+	// MaxHops is the maximum number of hops an announcement may travel from its
+	// origin (routing.max_hops). Zero disables the limit.
+	MaxHops int
+
 	// Logger for logging
 	Logger *slog.Logger
 
@@ -269,6 +273,13 @@ func (f *Flooder) HandleRouteAdvertise(
 		return false
 	}
 
+	// Enforce the hop limit. The path has one entry per hop travelled; the seen-by
+	// list is used as well because the path may be encrypted.
+	hops := max(len(path), len(seenBy))
+	if f.cfg.MaxHops > 0 && hops > f.cfg.MaxHops {
+		return false
+	}
+
 	// Convert protocol routes to routing entries (CIDR, domain, forward, and agent)
 	cidrEntries := make([]routing.RouteEntry, 0, len(routes))
 	domainEntries := make([]routing.DomainRouteEntry, 0)
@@ -326,6 +337,11 @@ func (f *Flooder) HandleRouteAdvertise(
 	// Process forward routes in routing manager
 	if len(forwardEntries) > 0 {
 		f.routeMgr.ProcessForwardRouteAdvertise(fromPeer, originAgent, sequence, forwardEntries, path, encPath)
+	}
+
+	// An announcement that has reached the hop limit is stored but travels no further
+	if f.cfg.MaxHops > 0 && hops >= f.cfg.MaxHops {
+		return true
 	}
 
 	// Flood to other peers (forward encrypted path as-is). The forwarded copy carries
